@@ -949,7 +949,7 @@ def unit_training(ctx, n):
         moved = set(p for p, l in pb.items() if ts.diff(l, pa.get(p, ("N",)), rtol=0.0))
         extra = moved - model_trainable
         missing = set()
-        if c["opt"] in ("adamw", "shift"):
+        if c["opt"] in ("adamw", "shift") and not c["seed"] % 2:  # with return_best (odd seeds) the initial parameters may be returned
             missing = set(p for p in model_trainable - moved if any(v != 0 for v in (pb[p][3] or [])))
         if extra or missing:
             u.disagreements += 1
